@@ -181,6 +181,8 @@ def parse_unit(path):
         elif d == "@check":
             m = re.match(r"(\S+)\s+\[(\w+)\]\s+((?:before|after)(?:#\d+/\d+)?)\s+`(.*)`\s*$", rest)
             if not m:
+                m = re.match(r"(\S+)\s+\[(\w+)\]\s+(body-end|body-start)()\s*$", rest)     # at the end / start of the function body
+            if not m:
                 raise Undecided("bad @check in %s:%d" % (path, i))
             txt = []
             while i < len(lines) and not lines[i].startswith("@"):
